@@ -219,7 +219,15 @@ impl Dist {
 				let p = p1.clone().mul(p2, int)?;
 				let mut found = false;
 				for (k, prob) in &mut parts {
-					if k.compare(&n, int)? == Some(Ordering::Equal) {
+					let same = match k.compare(&n, int)? {
+						Some(ord) => ord == Ordering::Equal,
+						// non-real outcomes are not ordered, but they can still be equal
+						None => {
+							k.real().compare(&n.real(), int)? == Ordering::Equal
+								&& k.imag().compare(&n.imag(), int)? == Ordering::Equal
+						}
+					};
+					if same {
 						*prob = prob.clone().add(p.clone(), int)?;
 						found = true;
 						break;
